@@ -712,9 +712,27 @@ func (c *ExprCtx) addOperand(t *rapid.T, target pathInfo, bad bool) model.AV {
 		case "SS":
 			return model.StrSet(distinctStrings(t, Str(c.Opts.ASCII), rapid.IntRange(1, 2).Draw(t, "addN"), "addSS", func(a, b string) bool { return a == b })...)
 		case "NS":
-			return model.NumSet(c.smallNum(t))
+			// (one to three members: the operand may be larger than the stored set)
+			ms := []string{c.smallNum(t)}
+			for i, n := 0, rapid.IntRange(0, 2).Draw(t, "addNSExtra"); i < n; i++ {
+				m := c.smallNum(t)
+				dup := false
+				for _, x := range ms {
+					if model.MustDec(x).Cmp(model.MustDec(m)) == 0 {
+						dup = true
+					}
+				}
+				if !dup {
+					ms = append(ms, m)
+				}
+			}
+			return model.NumSet(ms...)
 		case "BS":
-			return model.BinSet(Bytes(false).Draw(t, "addBS"))
+			bs := [][]byte{Bytes(false).Draw(t, "addBS")}
+			if b2 := Bytes(false).Draw(t, "addBS2"); string(b2) != string(bs[0]) && rapid.Bool().Draw(t, "addBSTwo") {
+				bs = append(bs, b2)
+			}
+			return model.BinSet(bs...)
 		}
 	}
 	switch rapid.IntRange(0, 3).Draw(t, "addKind") {
